@@ -260,7 +260,7 @@ def main():
     t0 = time.time()
     cfg = json.load(open(os.path.join(V, "checks", pid + ".json")))
     binp = build_engine()
-    outdir = os.path.join(V, "out", pid, tier)
+    outdir = os.path.join(V, os.environ.get("VERIF_OUTDIR", "out"), pid, tier)
     shutil.rmtree(outdir, ignore_errors=True)
     os.makedirs(outdir, exist_ok=True)
     jobs = []
@@ -480,8 +480,11 @@ def main():
         "assumptions": cfg.get("assumptions", []),
         "wall_s": round(wall, 1), "violations": violations,
     }
-    os.makedirs(os.path.join(V, "evidence"), exist_ok=True)
-    json.dump(evidence, open(os.path.join(V, "evidence", pid + ".json"), "w"), indent=1)
+    # (VERIF_EVIDENCE_DIR: experiments against a scratch copy of the repository - seeded changes - must not
+    #  overwrite the registered evidence, which always comes from /repo itself)
+    evdir = os.path.join(V, os.environ.get("VERIF_EVIDENCE_DIR", "evidence"))
+    os.makedirs(evdir, exist_ok=True)
+    json.dump(evidence, open(os.path.join(evdir, pid + ".json"), "w"), indent=1)
     print("%s tier=%s harnesses=%d paths=%d queries=%d obligations=%d/%d violations=%d known=%d wall=%.0fs" % (
         pid, tier, len(results), tot["paths"], tot["queries"], discharged, oblig, violations, len(set(known_hit)), wall))
     sys.exit(1 if violations else 0)
